@@ -282,6 +282,7 @@ PostReconnect(s, src, si, x, ki, snk) ==
 
 \* Unit(ID, ins=ia, outs=oa) for a unit role whose previous object holds nothing
 AllMissing(q) == \A i \in DOMAIN q : q[i] = M
+NoMissing(q) == \A i \in DOMAIN q : q[i] # M
 PreConstruct(s, u, ia, oa) ==
   /\ u \in Units /\ AllMissing(s.ins[u]) /\ AllMissing(s.outs[u])
   /\ Distinct(ia) /\ Distinct(oa)
@@ -468,6 +469,9 @@ InitFrom(r) == /\ ins = r.ins /\ outs = r.outs /\ sink = r.sink /\ source = r.so
 Legal(t) == \A k \in DOMAIN InvNames : InvHolds(t, InvNames[k])
 
 ObsLegal(e) == e.obs.ph_bad = <<>>
+\* a placeholder object shared by two ports (a stream-less connection) is hidden state this model does not carry:
+\* steps taken from such a state are not judged
+Suspended(e) == e.obs.suspend
 
 RECURSIVE FirstInvFail(_, _)
 FirstInvFail(t, k) == IF k > Len(InvNames) THEN "ok"
